@@ -206,7 +206,7 @@ def generate_case(ctx, r, tmp, gpath, rep):
             if r.random() < 0.4:
                 items.append(('flag', n))
             else:
-                v = r.choice(['red', '42', 'a b', 'x_y', '"quoted"', "'q'", 'path/to', 'v-w', '0', '-4', '-O2', '-', '-x=1', '=', 'a=b'])
+                v = r.choice(['red', '42', 'a b', 'x_y', '"quoted"', "'q'", 'path/to', 'v-w', '0', '-4', '-O2', '-', '-x=1', '=', 'a=b', '', '""', "''", 'False'])
                 if v.startswith('-'):
                     ctx.count('values_starting_with_dash')
                 items.append(('val', n, v))
